@@ -368,6 +368,10 @@ func c03(r *Run) {
 		r.ob("C03.R4:private-copy-is-heap:"+name, "the private copies returned by ReadBinary/ReadString are heap blocks (dirtmake), which nothing ever frees into the pool", fn, nil, ok && n > 0, "returns dirtmake.Bytes(...)", true)
 	}
 
+	// ---- R6 reference-count shape (shared with C02.R5) and R7 caller memory is never handed out for writing (C01.R5)
+	r.borrow([]string{"C02.R5:"}, "C02.R5", "C03.R6", func() { c02(r) })
+	r.borrow([]string{"C01.R5:"}, "C01.R5", "C03.R7", func() { c01(r) })
+
 	// ---- R5 plain writes of the reference count -----------------------------------------------------------
 	for _, fn := range w.Funcs {
 		for _, ins := range findIns(fn, func(i ssa.Instruction) bool { return isStoreToField(i, "linkBufferNode", "refer") }) {
